@@ -328,6 +328,78 @@ ATTACKS = {
 }
 
 
+# ---------------------------------------------------------------- helper-call histories
+# The sandbox leaves a number of internal helpers in the environment a module sees (the environment-stack helpers, the
+# loaders, _lua_reset_env, ...).  A page module may call them.  Explored exhaustively: every sequence (length <= bound) of
+# calls helper(arg) over all such helpers x a small argument domain, followed by loading a fresh probe module through each
+# loading route; the probe reports which host facilities its environment offers.  Oracle: nothing (as in the empty history).
+PROBE_SEES = r"""
+local seen = {}
+local function has(t, ks) if type(t) ~= 'table' then return false end for _, k in ipairs(ks) do if t[k] ~= nil then return true end end return false end
+if io ~= nil then seen[#seen+1] = 'io' end
+if has(os, {'execute', 'getenv', 'remove', 'rename', 'exit', 'tmpname'}) then seen[#seen+1] = 'os.*' end
+if loadstring ~= nil or load ~= nil or dofile ~= nil or loadfile ~= nil then seen[#seen+1] = 'load*' end
+if python ~= nil then seen[#seen+1] = 'python' end
+if has(package, {'loadlib', 'searchpath', 'cpath'}) then seen[#seen+1] = 'package.*' end
+if has(debug, {'getupvalue', 'getregistry', 'sethook', 'getinfo', 'setmetatable', 'getlocal'}) then seen[#seen+1] = 'debug.*' end
+if getfenv ~= nil or setfenv ~= nil then seen[#seen+1] = 'fenv' end
+local r = table.concat(seen, ',')
+"""
+HELPER_ARGS = ["nil", "{}", "'x'", "_G", "function() return _G end"]
+ROUTES = {
+    "require": "local ok, m = pcall(require, 'Module:%s'); return ok and ('SEES[' .. tostring(m.r) .. ']') or 'loaderr'",
+    "loadData": "local ok, m = pcall(mw.loadData, 'Module:%s'); return ok and ('SEES[' .. tostring(m.r) .. ']') or 'loaderr'",
+    "invoke": "local ok, m = pcall(frame.preprocess, frame, '{{#invoke:%s|f}}'); return ok and tostring(m) or 'loaderr'",
+}
+DISCOVER = """local e = {} function e.f(frame) local out = {}
+for k, v in pairs(_G) do local t = type(v)
+  if (t == 'function' or t == 'userdata') and type(k) == 'string' and (k:sub(1, 1) == '_' or k:find('python')) then out[#out+1] = k end end
+table.sort(out) return table.concat(out, ' ') end return e"""
+
+
+def sandbox_helpers():
+    ctx = new_ctx(lua=True)
+    ctx.add_page("Module:disc", 828, DISCOVER, model="Scribunto")
+    ctx.start_page("Tt")
+    names = ctx.expand("{{#invoke:disc|f}}").split()
+    close_ctx(ctx)
+    return names
+
+
+def helper_histories(part, nparts, length):
+    out, n, loaded = [], 0, 0
+    names = sandbox_helpers()
+    ops = [(h, a) for h in names for a in HELPER_ARGS]
+    hists = [()] if part == 0 else []
+    for L in range(1, length + 1):
+        for i, hs in enumerate(itertools.product(ops, repeat=L)):
+            if i % nparts == part:
+                hists.append(hs)
+    for hs in hists:
+        ctx = new_ctx(lua=True)
+        ctx.add_page("Module:warm", 828, "local e = {} function e.f(frame) return 'w' end return e", model="Scribunto")
+        calls = " ".join("pcall(%s, %s)" % (h, a) for h, a in hs)
+        for r, code in ROUTES.items():
+            ctx.add_page("Module:probe " + r, 828, PROBE_SEES + "return {r = r, f = function() return 'SEES[' .. r .. ']' end}", model="Scribunto")
+            ctx.add_page("Module:hist " + r, 828, "local e = {} function e.f(frame) " + calls + " " + (code % ("probe " + r)) + " end return e",
+                         model="Scribunto")
+        ctx.start_page("Tt")
+        ctx.expand("{{#invoke:warm|f}}")
+        for r in ROUTES:
+            ctx.start_page("Tt")
+            try:
+                res = ctx.expand("{{#invoke:hist " + r + "|f}}")
+            except Exception as e:
+                res = "EXC " + type(e).__name__
+            n += 1
+            loaded += "SEES[]" in res
+            if "SEES[" in res and "SEES[]" not in res:
+                out.append(("module_env_confined_after_helper_calls",
+                            {"calls": ["%s(%s)" % (h, a) for h, a in hs], "route": r}, res[:200], "SEES[] or a load error"))
+        close_ctx(ctx)
+    return out, n, names, loaded
+
+
 def run_attacks():
     out = []
     canary_dir = scratch_dir("c06atk")
@@ -388,6 +460,16 @@ def work(payload, skip, report):
         acc.count("loader_names", n)
         for o, case, ob, ex in res:
             acc.violation(o, case, ob, ex)
+    elif kind == "helpers":
+        _, part, nparts, length = payload
+        res, n, nh, loaded = helper_histories(part, nparts, length)
+        acc.case(n)
+        acc.count("helper_probes_loaded", loaded)
+        acc.count("helper_histories", n)
+        for h in nh:
+            acc.distinct("helpers", h)
+        for o, case, ob, ex in res:
+            acc.violation(o, case, ob, ex)
     else:
         res, n = run_attacks()
         acc.case(n)
@@ -412,6 +494,8 @@ def main(run):
     chunks.append(("loader", [], 2))
     chunks.append(("loader", [], 3))
     chunks.append(("attacks",))
+    for part in range(16):
+        chunks.append(("helpers", part, 16, 1 if q else 2))
     for cid, acc, hung in run_chunks(work, chunks, nproc=run.nproc, case_timeout=300):
         run.acc.merge(acc)
     c = run.acc.counters
@@ -426,7 +510,12 @@ def main(run):
                 "metatables, string metatable, require of %d names per graph through the sandbox's own require, nullary frame methods, "
                 "filter-passing attributes and items of Python objects); module names for the file loader: every name of length <= %d "
                 "over a %d-symbol path alphabet with an audit hook on open(); %d attack modules executed for real with canary file and "
-                "page-store digest" % (graphs, c["require_names_tried"] // max(1, graphs), L, len(LOADER_ALPHA), len(ATTACKS)),
+                "page-store digest; helper-call histories: every sequence of <= %d calls helper(arg) over the %d internal helpers visible "
+                "in a module's environment x %d argument shapes, each followed by loading a fresh probe module through require, "
+                "mw.loadData and a nested #invoke (%d probes, %d of which loaded and reported their environment), which must see no host "
+                "facility" % (
+                    graphs, c["require_names_tried"] // max(1, graphs), L, len(LOADER_ALPHA), len(ATTACKS),
+                    1 if q else 2, len(run.acc.sets.get("helpers", ())), len(HELPER_ARGS), c["helper_histories"], c["helper_probes_loaded"]),
         "exhaustive": True,
         "bound": "results of calling reachable functions with arbitrary arguments are not edges (only the listed calls)",
     }
